@@ -101,6 +101,16 @@ fn api_case(c: &J) -> Result<J, String> {
             let r = vres(api_bin(c["op"].as_str().unwrap(), &a, &b));
             unchanged(&a, &c["a"])?;
             unchanged(&b, &c["b"])?;
+            if c["a"] == c["b"] {
+                // equal operands also as two handles on ONE storage (what `put x into y` produces): values have no identity
+                let shared = a.clone();
+                let r2 = vres(api_bin(c["op"].as_str().unwrap(), &a, &shared));
+                let r3 = vres(api_bin(c["op"].as_str().unwrap(), &a, &a));
+                let strip = |j: &J| if j["t"] == "err" { json!({"t":"err"}) } else { j.clone() };
+                if strip(&r2) != strip(&r) || strip(&r3) != strip(&r) {
+                    return Err(format!("result depends on whether equal operands share storage: {} apart, {} as copies, {} as one value", r, r2, r3));
+                }
+            }
             r
         }
         "fold" | "compound" => {
@@ -339,7 +349,16 @@ fn build_program(c: &J, form: u8) -> Option<ProgCase> {
     match k {
         "bin" => {
             input(&mut p, "va", &c["a"], &mut unchanged);
-            input(&mut p, "vb", &c["b"], &mut unchanged);
+            if form == 2 {
+                // the second operand is a copy of the first (made by assignment: both handles share storage until one is written)
+                if c["a"] != c["b"] {
+                    return None;
+                }
+                p.push(|l| put("vb", prim(var("va", l)), l));
+                unchanged.push(("vb".to_string(), c["b"].clone()));
+            } else {
+                input(&mut p, "vb", &c["b"], &mut unchanged);
+            }
             let op = binop(c["op"].as_str().unwrap());
             p.push(|l| put("vr", bin(op, prim(var("va", l)), vec![prim(var("vb", l))]), l));
         }
@@ -602,7 +621,7 @@ pub fn check(rec: &J) -> Verdict {
         return Verdict::viol("Val API result differs from model".into(), api_obs);
     }
     // program level
-    let forms: &[u8] = if matches!(k, "cut" | "join" | "cast") { &[0, 1] } else { &[0] };
+    let forms: &[u8] = if matches!(k, "cut" | "join" | "cast") { &[0, 1] } else if k == "bin" { &[0, 2] } else { &[0] };
     for &f in forms {
         match prog_case(c, exp, f) {
             Err(m) => return Verdict::viol(m, json!({"api": api_obs, "form": f})),
